@@ -217,13 +217,13 @@ class Runner:
             env["VERIF_REPLAY"] = replay
         pkg, run = variant.get("pkg", self.cfg.pkg), variant.get("run", self.cfg.run)
         rc, out, dt = core.go_test(self.work, self.overlay(variant, self.wb), pkg, run, env,
-                                   tags=variant.get("tags", self.cfg.tags), timeout=self.cfg.timeout)
+                                   tags=variant.get("tags", self.cfg.tags), timeout=self.cfg.timeout * (4 if self.tier == 'thorough' else 1))
         if rc != 0 and self.wb and variant.get("wb_files", self.cfg.wb_files) and ("[build failed]" in out or "[setup failed]" in out):
             # broken L2 tie: the white-box file no longer compiles against the tree; L1 only
             self.build_notes.append("white-box harness does not build against this tree; L1 (exported API) only:\n" + out[-1500:])
             self.wb = False
             rc, out, dt = core.go_test(self.work, self.overlay(variant, False), pkg, run, env,
-                                       tags=variant.get("tags", self.cfg.tags), timeout=self.cfg.timeout)
+                                       tags=variant.get("tags", self.cfg.tags), timeout=self.cfg.timeout * (4 if self.tier == 'thorough' else 1))
         return rc, out
 
     def drive(self, outdir, variant=None):
